@@ -46,6 +46,9 @@ def main():
             head = subprocess.run(['git', '-C', '/repo', 'rev-parse', '--short', 'HEAD'], capture_output=True, text=True).stdout.strip()
             with open(os.path.join(root, 'RESULTS.txt'), 'a') as f:
                 f.write('%s check=%s tier=%s repo=%s %s\n' % (sid, prop, tier, head, results[sid]))
+    # the translators wrote coq/Gen/*.v from the patched trees: put the translation of /repo back
+    subprocess.run([sys.executable, os.path.join(HERE, 'harness', 'setup.py'), '--pregen-only'], cwd=HERE,
+                   env={k: v for k, v in os.environ.items() if k != 'VERIF_REPO'}, stdout=subprocess.DEVNULL)
     return 0 if all(v.startswith('CAUGHT') for v in results.values()) else 1
 
 
